@@ -3,14 +3,22 @@
 From Coq Require Import ZArith.
 From OCI Require Import Machine Checkers.
 From OCI.proofs Require Import ArithOk Trace InvKnown ChkKnown IterBase ChkIter ChkAll.
+From OCI.proofs Require Import GapFree.
 Open Scope N_scope.
 
-Check all_C02 : forall e, src_env e -> forall progs, wf_progs progs -> forall sched,
+Check all_C02 : forall e, src_env e -> fused e -> forall progs, wf_progs progs -> forall sched,
   nowrap (c_labels (exec e (init progs) sched)) ->
   chk_C02 e (c_trace (exec e (init progs) sched)) = true.
-Theorem c02_index_fidelity : forall e, src_env e -> forall progs, wf_progs progs -> forall sched,
+Theorem c02_index_fidelity : forall e, src_env e -> fused e -> forall progs, wf_progs progs -> forall sched,
   nowrap (c_labels (exec e (init progs) sched)) ->
   chk_C02 e (c_trace (exec e (init progs) sched)) = true.
 Proof. exact all_C02. Qed.
 Print Assumptions c02_index_fidelity.
 
+(** a wrapped iterator that is not fused: index fidelity holds on every run on which the wrapped next() has not yet answered None although elements remain ([gap_free]: none of the calls made so far is such an answer).  After such an answer it is false: positions fall behind the indices of the tickets ([Examples.gap_hypotheses_hold]) *)
+Theorem c02_index_fidelity_until_first_gap : forall e, iter_env e -> forall progs, wf_progs progs -> forall sched,
+  nowrap (c_labels (exec e (init progs) sched)) ->
+  gap_free e (s_calls (c_sh (exec e (init progs) sched))) ->
+  check_prop 2 e (c_trace (exec e (init progs) sched)) (c_labels (exec e (init progs) sched)) = true.
+Proof. exact iter_C02_until_gap. Qed.
+Print Assumptions c02_index_fidelity_until_first_gap.
